@@ -40,6 +40,14 @@ def corpus():
         fixwire.msg("A", 2, S, T, [(98, 0), (108, 30)]),
         fixwire.msg("4", 2, S, T, [(123, "Y"), (36, 7)]),
     ]
+    # frames in which one edit of a body tag yields "10=ddd" with ddd = the checksum of everything before it: an early, self-consistent
+    # trailer (only the BodyLength still says that the frame is longer)
+    for tag in (11, 17, 1, 100, 19):
+        before, after = [(55, "VOD.L"), (54, 1)], [(38, 100), (44, "12.5"), (58, "tail")]
+        fr = fixwire.msg("D", 2, S, T, before + [(tag, "000")] + after)
+        cut = fr.index(b"\x01%d=000\x01" % tag) + 1
+        ddd = b"%03d" % (sum(fr[:cut]) % 256)
+        c.append(fixwire.msg("D", 2, S, T, before + [(tag, ddd.decode())] + after))
     return c
 
 
@@ -139,7 +147,10 @@ def check_decode(acc, codec, buf, cid, kind, witness_extra=None):
             elif s.startswith("BodyLength not digits"):
                 key = "lenient-bodylength-lexeme"
             elif s.startswith("BodyLength ") and "!= actual" in s:
-                key = "bodylength-not-verified"
+                decl, act = int(s.split()[1]), int(s.split()[-1])
+                # declared larger than the frame: the frame was cut short (or a field garbled into an early "10=") - repaired in the
+                # repository; declared smaller: pinned by tests/test_codec.py::test_decode_custom_msg_type (listed finding)
+                key = "bodylength-not-verified" if decl < act else "bodylength-exceeds-frame-accepted"
             elif s.startswith("CheckSum ") and "!= actual" in s:
                 key = "accepts-wrong-checksum"
             elif s.startswith(("third field is not MsgType", "fewer than 4 fields", "empty value for tag")):
@@ -416,14 +427,18 @@ async def live_one(acc, clock, kind, mal, must_all, chunking, cid):
             acc.violation(key, f"live reader never reacts to {16} valid frames after the malformed input; buffer={len(ep._msg_buffer)} bytes", w, cid)
             return
         # frames that follow the malformed one must reach the session layer, each once, whatever the malformed one did to the
-        # code that handled it - unless the connection chose to disconnect.  The first valid frame directly behind the malformed
-        # bytes is left out: a frame whose end is garbled may legitimately take its neighbour with it.
+        # code that handled it - unless the connection chose to disconnect.  Only when the malformed bytes stop in the middle of a
+        # field (no SOH before the next frame's "8=FIX.") the first valid frame is left out: marker text inside a value is legal,
+        # so nothing tells the decoder where that neighbour starts.
         if ep.connection_state > ConnectionState.DISCONNECTED_BROKEN_CONN and not kind.startswith("junk-prefix:"):
             acc.oracle("live-reader-following-frames-reach-the-session-layer")
             cnt = [sum(1 for r in processed if r == t) for t in tail]
             w["tail_frames_processed"] = cnt
-            if any(c != 1 for c in cnt[1:]):
-                acc.violation("live-reader-drops-valid-frames-behind-the-malformed-one" if any(c == 0 for c in cnt[1:]) else
+            first = 0 if mal.endswith(b"\x01") else 1
+            if first == 0:
+                acc.add("live_cases_where_every_following_frame_must_be_processed")
+            if any(c != 1 for c in cnt[first:]):
+                acc.violation("live-reader-drops-valid-frames-behind-the-malformed-one" if any(c == 0 for c in cnt[first:]) else
                               "live-reader-processes-a-frame-twice",
                               f"of the 8 valid frames behind the malformed input, times handed to message processing: {cnt}; "
                               f"connection still {ep.connection_state.name}", w, cid)
